@@ -14,6 +14,8 @@ os.makedirs("/tmp/mutprompts", exist_ok=True)
 for line in open(os.path.join(V, "properties.jsonl")):
     p = json.loads(line)
     pid = p["id"]
+    if os.environ.get("ONLY") and pid not in os.environ["ONLY"].split(","):
+        continue
     wt = f"/tmp/mut{rnd}-{pid}"
     if not os.path.isdir(wt):
         subprocess.run(["git", "-C", "/repo", "worktree", "add", "-q", "--detach", wt, "HEAD"], check=True)
